@@ -196,8 +196,20 @@ async fn gen_proc(sim: &mut Sim, rng: &mut Prng, stats: &mut Stats, name: &str) 
     let fd_mode = rng.chance(1, 3);
     let allow_mb = mb_keys_enabled();
     let mut pool: Vec<Vec<u8>> = Vec::new();
+    // sometimes two clusters whose ids are close to each other share the world (C16)
+    let cluster_pair: Option<(&str, &str)> = if rng.chance(1, 5) {
+        Some(*rng.pick(&[("prod", "Prod"), ("c", ""), ("ab", "abc"), ("x", "y"), ("c ", "c")]))
+    } else {
+        None
+    };
+    if cluster_pair.is_some() {
+        stats.bump("cases_two_clusters");
+    }
     let join = |sim: &mut Sim, rng: &mut Prng, i: usize| {
         let mut spec = NodeSpec::simple(node_id(i, rng));
+        if let Some((c0, c1)) = cluster_pair {
+            spec.cluster = if i % 2 == 0 { c0.to_string() } else { c1.to_string() };
+        }
         spec.kv_grace_ns = kv_grace;
         spec.dead_grace_ns = dead_grace;
         spec.has_cb = rng.chance(3, 4);
